@@ -99,4 +99,43 @@ example : (filterCn false
     (fun r => (r.chrom, r.s, r.e, r.probes, r.weight, r.log2)) =
     [("chr1", 0, 20, 5, 4, 3/4), ("chr1", 20, 30, 1, 1, 0), ("chr2", 5, 9, 1, 1, 0)] := by decide +kernel
 
+/-! ### round 4: levels of any size (after the repair of `enumerate_changes`) -/
+
+/-- STRONGER main theorem: the levels need not be integers.  On a chromosome-contiguous table whose levels are
+    present (any rational values -- e.g. the weighted-median cn 5.5 an `ampdel` run can carry into a following `cn`
+    filter) the code's group keys select exactly the maximal runs; allele-specific copy numbers may be any values
+    but −1 (the code's stand-in for "missing"). -/
+theorem groups_are_maximal_runs_any_levels (h : Bool) (f : Seg → Option Rat) (t : List Seg)
+    (hc : ChromContig t) (hf : ∀ r ∈ t, Present (f r))
+    (h1 : h = true → ∀ r ∈ t, r.cn1 ≠ some (-1) ∧ r.cn2 ≠ some (-1)) :
+    squashByGroups h t (t.map f) = specSquash h f t := squashByGroups_eq_runs_any h f t hc hf h1
+
+/-- the `cn` filter merges exactly the runs of EQUAL cn, whatever values cn takes -/
+theorem cn_filter_is_runs_of_equal_cn (t : List Seg) (hc : ChromContig t) (hcn : ∀ r ∈ t, Present r.cn) :
+    filterCn false t = specSquash false levelCn t :=
+  squashByGroups_eq_runs_any false levelCn t hc hcn (fun h => absurd h (by decide))
+
+/-- before the repair (`…abs().cumsum().astype(int)`): 5.5 and 5 shared a key, so the `cn` filter after `ampdel`
+    merged an amplified run of median cn 5.5 with a neighbouring cn-5 segment; the change count keeps them apart -/
+theorem enumerate_changes_prefix_counterexample :
+    enumChangesPrefix [some (11/2), some 5] = [0, 0] ∧ enumChanges [some (11/2), some 5] = [0, 1] := by
+  decide +kernel
+
+example : ChromContig [({ chrom := "chr1", s := 0, e := 20, gene := "a,b", log2 := 29/20, probes := 10, weight := 2, cn := some (11/2) } : Seg),
+    { chrom := "chr1", s := 30, e := 40, gene := "d", log2 := 13/10, probes := 5, weight := 1, cn := some 5 }] := by
+  intro l1 l2 l3 x y z ht hz hxy
+  have hlen := congrArg List.length ht
+  simp at hlen
+  have : l2 = [] := by
+    cases l2 with
+    | nil => rfl
+    | cons a b => simp at hlen; omega
+  subst this
+  simp at hz
+
+example : (filterCn false
+    [ { chrom := "chr1", s := 0, e := 20, gene := "a,b", log2 := 29/20, probes := 10, weight := 2, cn := some (11/2) },
+      { chrom := "chr1", s := 30, e := 40, gene := "d", log2 := 13/10, probes := 5, weight := 1, cn := some 5 } ]).map
+    (fun r => (r.s, r.e, r.cn)) = [(0, 20, some (11/2)), (30, 40, some 5)] := by decide +kernel
+
 end CnvVerif.C14
